@@ -317,6 +317,14 @@ func (s *scn) judge(a *attempt) {
 		if len(a.ch) == s.M {
 			s.c.Count("channel_name_exactly_max_length", 1)
 		}
+		if code == codeLimitExceeded && a.isMap {
+			// A map subscribe reserves its channel only when its (possibly gated)
+			// subscribe callback answers; by then other reservations may have filled
+			// the connection. The statement does not forbid that refusal.
+			s.c.Count("limit_hit_map_at_reservation_time", 1)
+			delete(s.entries, a.ch)
+			return
+		}
 		if code == codeLimitExceeded {
 			s.c.Violation("c37-limit-exceeded-below-channel-limit",
 				fmt.Sprintf("client subscribe %q got limit-exceeded although the connection held fewer entries than ClientChannelLimit=%d", short(a.ch), s.L), s.detail())
